@@ -18,7 +18,7 @@ import (
 
 var bulkSizes = [...]int{700, 1500, 3000}
 
-const bulkRaceRuns = 512
+const bulkRaceRuns = 1536
 
 func BulkEnumSize() int64 { return int64(len(bulkSizes))*2 + bulkRaceRuns }
 
